@@ -44,6 +44,7 @@ type HarnessCfg struct {
 	Guarded     []string          `json:"guarded"`
 	UnwindCut   map[string]int    `json:"unwind_cut"` // loops in these functions are cut after K symbolic iterations (the rest is outside the claim)
 	ExactCap    bool              `json:"exact_cap"` // bytes.Buffer.Bytes() views get cap == len (no symbolic capacity)
+	RaceMonitor bool              `json:"race_monitor"` // footprint monitor: a byte object that existed before the goroutines were started must not be written by two of them
 	EnvAt       []string          `json:"env_at"` // visible operations at which the environment callback runs (default: all)
 	NoEnd       bool              `json:"no_end"` // the harness ends blocked by design; "end" is not required
 	Real        []string          `json:"real"` // models disabled for this harness (the real SSA body is executed)
